@@ -335,6 +335,23 @@ Section CompileP.
     prod_small e N (Group sp m1 m2 hin hout) U = prod_small_list e N sp U.
   Proof. simpl. revert U. induction sp as [|c sp IH]; intros U; simpl; [reflexivity|]. apply IH. Qed.
 
+  (* the ordered product is a homomorphism from concatenation of component lists, and a
+     group is transparent: it contributes the ordered product of its own components *)
+  Lemma prod_small_list_app e N sp1 sp2 U :
+    prod_small_list e N (sp1 ++ sp2) U = prod_small_list e N sp2 (prod_small_list e N sp1 U).
+  Proof. unfold prod_small_list. apply fold_left_app. Qed.
+
+  Lemma prod_small_list_group e N sp1 sp m1 m2 hin hout sp2 U :
+    prod_small_list e N (sp1 ++ Group sp m1 m2 hin hout :: sp2) U =
+    prod_small_list e N (sp1 ++ sp ++ sp2) U.
+  Proof.
+    rewrite !prod_small_list_app.
+    change (prod_small_list e N (Group sp m1 m2 hin hout :: sp2) (prod_small_list e N sp1 U))
+      with (prod_small_list e N sp2
+              (prod_small e N (Group sp m1 m2 hin hout) (prod_small_list e N sp1 U))).
+    rewrite prod_small_group. reflexivity.
+  Qed.
+
   Lemma lead_mul n N (A B : mat) :
     N <= n ->
     (forall i j k, i < N -> j < N -> N <= k -> k < n -> kmul co (A i k) (B k j) = k0 co) ->
